@@ -11,7 +11,7 @@
    correspondence, the model's own composition (Transform.roundtrip) against it. *)
 From Verif Require Import Base.Str Base.Outcome Model.Ast Model.Token Model.Parser Model.Listener Model.Printer
   Model.Transform Spec.Sem Spec.Expressible Spec.Normalize Proofs.ListenerSem Proofs.ListenerFile Proofs.ParserShape Proofs.RoundTrip Proofs.Lossless Proofs.ParserTokens Proofs.AcceptedText
-  Proofs.ParserComplete Proofs.LexInversion Proofs.LexRender Proofs.RoundTripChars Proofs.DeclRoundTrip.
+  Proofs.ParserComplete Proofs.LexInversion Proofs.LexRender Proofs.RoundTripChars Proofs.DeclRoundTrip Proofs.DocLex Proofs.DocParse Proofs.DocChars Proofs.DocSem Proofs.DocPrepass Proofs.DocPrint Proofs.DocRoundTrip.
 
 (* 1. what the parser can produce for a relation is always printable: carriable, at most one direct assignment,
       and that one in a position from which it can be written first *)
@@ -116,3 +116,27 @@ Theorem C01_relation_line_round_trip : forall ty rel d meta,
       sem_rdef (rl_def r) = sem_rdef d /\
       restrictions_elem (rd_first (rl_def r)) = (if (count_direct (sem_rdef d) =? 0)%nat then None else Some refs).
 Proof. exact parsed_declaration_round_trip. Qed.
+
+(* ... and of the whole DOCUMENT.  (a) The text: pre-pass, lexer model, parser model and listener model, run on the
+   characters of a canonical document (header, type blocks, relation lines; plain names), return the denotation of its
+   syntax tree — no hypothesis on how the text was produced. *)
+Theorem C01_canonical_document_is_accepted : forall v ts,
+  std_version v = true -> Forall type_lex_ok ts -> Forall type_ok ts -> distinct_decls (doc_file v ts) ->
+  exists exts md, dsl_to_model (text_of (ctoks_doc v ts) ++ [10]) = DOk (sem_file (doc_file v ts)) exts md.
+Proof. exact canonical_document_accepted. Qed.
+
+(* (b) the pre-pass strips exactly the closing line feed of such a text: no line of it is a comment, holds " #" or ends
+   with a blank *)
+Theorem C01_prepass_on_canonical_text : forall v ts,
+  std_version v = true -> Forall type_lex_ok ts ->
+  Model.Lexer.prepass (text_of (ctoks_doc v ts) ++ [10]) = text_of (ctoks_doc v ts).
+Proof. exact canonical_document_prepass. Qed.
+
+(* (c) model -> DSL -> model: what the printer model writes for a covered model is such a text, and reading it gives the
+   model in canonical form (relations in name order, rewrites normalised) *)
+Theorem C01_printed_document_reads_back : forall m, model_ok m ->
+  exists t exts md, fst (print_model false m) = Ok t /\ dsl_to_model t = DOk (reparsed m) exts md.
+Proof. exact printed_model_reads_back. Qed.
+Theorem C01_reread_model_is_canonical : forall m, model_ok m ->
+  reparsed m = {| m_schema := m_schema m; m_types := map canon_td (m_types m); m_conds := [] |}.
+Proof. exact reparsed_is_canonical. Qed.
